@@ -822,6 +822,7 @@ func Run(r *mc.Run) {
 	unknown := [][2]string{{"X-Extra", "u1"}, {"Zeta", "u 2"}}
 	// unknown fields whose names differ from a known key only in letter case are unknown fields all the same
 	unknownML := [][2]string{{"X-Extra", "u1\n more\n .\n last\n ."}, {"Zeta", "\n line one\n .\n .\n\tline four\n ."}}
+	unknownK := [][2]string{{"\u212anown1", "kelvin 1"}, {"\u212anown-Two", "kelvin 2"}}
 	unknownAlt := [][2]string{{"known1", "case-variant 1"}, {"KNOWN-TWO", "case-variant 2"}}
 	var docs [][][2]string
 	// all interleavings of every subset of known (in order) with every subset of unknown (in order)
@@ -856,6 +857,16 @@ func Run(r *mc.Run) {
 			}
 			if len(usML) > 0 {
 				orders = append(orders, usML)
+			}
+			// names that only Unicode case folding maps onto a known key (KELVIN SIGN for K) are unknown fields too
+			var usK [][2]string
+			for b := 0; b < 2; b++ {
+				if um&(1<<b) != 0 {
+					usK = append(usK, unknownK[b])
+				}
+			}
+			if len(usK) > 0 {
+				orders = append(orders, usK)
 			}
 			if len(us) == 2 {
 				orders = append(orders, [][2]string{us[1], us[0]})
